@@ -692,8 +692,14 @@ def one_append_per_column(rep):
                                                    for x in b):
                         later = False
                         for x in b:
-                            if later and norm_src(x).startswith("var = list(set(var))"):
-                                blk = x
+                            if later and isinstance(x, ast.Assign) \
+                                    and unparse(x.targets[0]) == "var" and any(
+                                        isinstance(c_, ast.Call) and unparse(c_.func) == "set"
+                                        and c_.args and any(
+                                            isinstance(y, ast.Name) and y.id == "var"
+                                            for y in ast.walk(c_.args[0]))
+                                        for c_ in ast.walk(x.value)):
+                                blk = x         # rebuilt from a set: duplicates removed
                             if n is x or n in list(ast.walk(x)):
                                 later = True
                 par = getattr(par, "_parent", None)
